@@ -44,10 +44,9 @@ func runC11(c *core.Ctx) {
 	ci := 100 * time.Millisecond
 	scheduled := !t.Bias(1, 4, "nosched")
 	var s *sched.Sched
-	if scheduled {
-		s = sched.Install(c, c11Sites)
-	}
+	loopSites := scheduled && t.Bias(1, 2, "loopsites")
 	c.Knob("scheduled", scheduled)
+	c.Knob("loopSites", loopSites)
 	notes := rig.InstallNotes(c)
 	opts := func() []ice.AgentOption {
 		return []ice.AgentOption{ice.WithCheckInterval(ci), ice.WithKeepaliveInterval(300 * time.Millisecond),
@@ -62,6 +61,16 @@ func runC11(c *core.Ctx) {
 		return
 	}
 	A, B := d.A, d.B
+	if scheduled {
+		// installed only now: constructing an agent submits to its own loop from this (the root) goroutine
+		sites := c11Sites
+		if loopSites {
+			// also park every submission to the task loop at its entry: work queued behind the loop (a Restart
+			// racing the end of a gather cycle, a Close racing an enqueue) is then ordered by the tape
+			sites = append(append([]string{}, c11Sites...), "taskloop.Run.entry")
+		}
+		s = sched.Install(c, sites)
+	}
 
 	var seq atomic.Int64
 	var mu sync.Mutex
@@ -203,7 +212,9 @@ func runC11(c *core.Ctx) {
 		}
 	}
 	synctest.Wait()
-	if t.Bias(1, 2, "restart") && !closeCalled.Load() && idle() {
+	if t.Bias(1, 2, "restart") && !closeCalled.Load() {
+		// (goroutines may be parked at this point, e.g. a gatherer about to submit its completion to the
+		// loop: the Restart is then ordered against them by the scheduler)
 		c.Fault("restart")
 		serve(func() {
 			uf, pw := rig.Creds("A", 1)
@@ -240,7 +251,8 @@ func runC11(c *core.Ctx) {
 			}
 		}()
 	}
-	// run everything down
+	// run everything down (the peer is closed too: its periodic loop submissions would park for ever)
+	go func() { _ = B.A.Close() }()
 	quiet := 0
 	for i := 0; i < 4000 && quiet < 40; i++ {
 		synctest.Wait()
